@@ -1498,7 +1498,9 @@ type Pattern struct {
 }
 
 func newPattern(pattern string) (*Pattern, error) {
-	r, err := regexp.Compile(pattern)
+	// RFC7950 Sec 9.4.5 patterns are XSD regular expressions which always match the
+	// whole value
+	r, err := regexp.Compile("^(?:" + pattern + ")$")
 	if err != nil {
 		return nil, err
 	}
